@@ -1,8 +1,9 @@
 #!/bin/bash
-# run every seeded mutant of the given properties against that property's quick check; results appended to /verif/seeded/RESULTS.txt
+# run every seeded change of the given properties against that property's quick check; results appended to /verif/seeded/RESULTS.txt
 for p in "$@"; do
   for d in /verif/seeded/$p-*; do
     id=$(basename $d)
-    /verif/tools/mutest.sh $id $p 2>&1 | grep "^== mutant" | tee -a /verif/seeded/RESULTS.txt
+    timeout 1500 /verif/tools/mutest.sh $id $p 2>&1 | grep "^== mutant" | tee -a /verif/seeded/RESULTS.txt
+    git -C /repo checkout -- . 2>/dev/null
   done
 done
